@@ -19,23 +19,39 @@ def lookup (tb : Table) (fn : String) (x : Float) : Float :=
   match tb.find? (·.1 == fn) with
   | none => Float.ofBits 0x7ff8000000000000
   | some (_, rows) =>
-    match rows.find? (·.1 == (x + 0.0).toBits) with
+    match rows.find? (·.1 == x.toBits) with
     | some (_, y) => Float.ofBits y
     | none =>
-      match rows.find? (·.1 == x.toBits) with
+      match rows.find? (·.1 == (x + 0.0).toBits) with
       | some (_, y) => Float.ofBits y
+      | none => Float.ofBits 0x7ff8000000000000
+
+abbrev Table2 := List (String × List (UInt64 × UInt64 × UInt64))
+
+/-- binary functions tabulated by the harness (np.floor_divide, np.remainder, np.power / Python **, np.arctan2) -/
+def lookup2 (tb : Table2) (fn : String) (x y : Float) : Float :=
+  match tb.find? (·.1 == fn) with
+  | none => Float.ofBits 0x7ff8000000000000
+  | some (_, rows) =>
+    match rows.find? fun r => r.1 == x.toBits && r.2.1 == y.toBits with
+    | some r => Float.ofBits r.2.2
+    | none =>
+      match rows.find? fun r => r.1 == (x + 0.0).toBits && r.2.1 == (y + 0.0).toBits with
+      | some r => Float.ofBits r.2.2
       | none => Float.ofBits 0x7ff8000000000000
 
 def fsign (x : Float) : Float := if x > 0 then 1 else if x < 0 then -1 else 0
 
-def prims (tb : Table) (cutoff : Float) : Prims Float :=
+def prims (tb : Table) (tb2 : Table2) (cutoff : Float) : Prims Float :=
   { zero := 0, one := 1, half := 0.5, negOne := -1,
     posInf := Float.ofBits 0x7ff0000000000000, negInf := Float.ofBits 0xfff0000000000000, cutoff := cutoff,
     add := (· + ·), sub := (· - ·), mul := (· * ·), div := (· / ·), neg := (- ·), abs := Float.abs, sign := fsign,
     lt := fun a b => a < b, le := fun a b => a ≤ b, eq := fun a b => a == b,
     sqrt := Float.sqrt, log := lookup tb "log", exp := lookup tb "exp", sin := lookup tb "sin", cos := lookup tb "cos",
     tan := lookup tb "tan", asin := lookup tb "arcsin", acos := lookup tb "arccos", atan := lookup tb "arctan",
-    expOv := fun x => (lookup tb "exp" x).isInf, ofNat := fun n => n.toFloat }
+    expOv := fun x => (lookup tb "exp" x).isInf, ofNat := fun n => n.toFloat,
+    fdiv := lookup2 tb2 "fdiv", fmod := lookup2 tb2 "fmod", pow := lookup2 tb2 "pow", atan2 := lookup2 tb2 "atan2",
+    nonfinite := fun x => x.isNaN || x.isInf }
 
 def floats? (x : Sx) : Option (Array Float) := do
   let l ← x.nats?
@@ -85,15 +101,34 @@ def parseTable : Sx → Option (String × List (UInt64 × UInt64))
     some (fn, rs)
   | _ => none
 
+def parseTable2 : Sx → Option (String × List (UInt64 × UInt64 × UInt64))
+  | .list (.atom fn :: rows) => do
+    let rs ← rows.mapM fun r => match r with
+      | .list [a, b, c] => do
+        let x ← a.toNat?
+        let y ← b.toNat?
+        let z ← c.toNat?
+        some (x.toUInt64, y.toUInt64, z.toUInt64)
+      | _ => none
+    some (fn, rs)
+  | _ => none
+
+def parseK : String → Option CmpKind
+  | "lt" => some .lt | "le" => some .le | "gt" => some .gt | "ge" => some .ge | "eq" => some .eq | "ne" => some .ne
+  | _ => none
+
 def parseU : String → Option UOp
   | "neg" => some .neg | "abs" => some .abs | "sign" => some .sign | "sin" => some .sin | "cos" => some .cos
   | "tan" => some .tan | "arctan" => some .arctan | "sqrt" => some .sqrt | "log" => some .log | "expC" => some .expC
   | "recip" => some .recip | "arcsin" => some .arcsin | "arccos" => some .arccos | "sqrtNc" => some .sqrtNc
   | "logNc" => some .logNc | "exp" => some .exp | "recipNz" => some .recipNz | "arcsinNc" => some .arcsinNc
-  | "arccosNc" => some .arccosNc | "wod" => some .wod | "pickle" => some .pickle | _ => none
+  | "arccosNc" => some .arccosNc | "wod" => some .wod | "pickle" => some .pickle
+  | "signNz" => some .signNz | "frac" => some .frac | "pow0" => some .pow0 | "pow2" => some .pow2
+  | "pow3" => some .pow3 | "pow4" => some .pow4 | _ => none
 
 def parseB : String → Option BOp
   | "add" => some .add | "sub" => some .sub | "mul" => some .mul | "div" => some .div | "stack" => some .stack
+  | "mod" => some .mod | "floordiv" => some .floordiv | "arctan2" => some .arctan2
   | _ => none
 
 def parseR : String → Option ROp
@@ -112,6 +147,13 @@ partial def parseExpr : Sx → Option Expr
   | .list [.atom "sort", ax, e] => do some (.sort (← ax.toNat?) (← parseExpr e))
   | .list [.atom "index", e, iv] => do some (.index (← parseExpr e) (← iv.toNat?))
   | .list [.atom "su", am, e] => do some (.shrinkUnshrink (← am.toNat?) (← parseExpr e))
+  | .list [.atom "powG", ik, ikm1, e] => do some (.powG (← ik.toNat?) (← ikm1.toNat?) (← parseExpr e))
+  | .list [.atom "mw", .atom k, il, ir, rm, e] => do
+    let irep ← match ir with
+      | .atom "-" => some none
+      | x => (x.toNat?).map some
+    some (.mw (← parseK k) (← il.toNat?) irep (← rm.toBool?) (← parseExpr e))
+  | .list [.atom "clip", ilo, ihi, rm, e] => do some (.clip (← ilo.toNat?) (← ihi.toNat?) (← rm.toBool?) (← parseExpr e))
   | _ => none
 
 def bitsSx (x : Float) : Sx :=
@@ -142,16 +184,18 @@ def boolSx (a : MArr Bool) : Sx :=
 
 def handle : List Sx → Sx
   | [tree, .list (.atom "objs" :: objs), .list (.atom "idxs" :: idxs), .list (.atom "ams" :: ams),
-     .list (.atom "tables" :: tbs), cut] =>
-    match objs.mapM parseObj, idxs.mapM parseIdx, ams.mapM parseAm, tbs.mapM parseTable, cut.toNat? with
-    | some objs, some idxs, some ams, some tb, some cut =>
-      let P := prims tb (Float.ofBits cut.toUInt64)
-      let env : Env Float := ⟨objs, idxs, ams⟩
+     .list (.atom "tables" :: tbs), .list (.atom "tables2" :: tbs2), .list (.atom "consts" :: cs), cut] =>
+    match objs.mapM parseObj, idxs.mapM parseIdx, ams.mapM parseAm, tbs.mapM parseTable, tbs2.mapM parseTable2,
+          floats? (.list cs), cut.toNat? with
+    | some objs, some idxs, some ams, some tb, some tb2, some consts, some cut =>
+      let P := prims tb tb2 (Float.ofBits cut.toUInt64)
+      let env : Env Float := ⟨objs, idxs, ams, consts.toList⟩
       match tree with
       | .list (.atom "prog" :: stmts) =>
         let parseStmt : Sx → Option Stmt := fun x => match x with
           | .list [.atom "assign", i, e] => do some (.assign (← i.toNat?) (← parseExpr e))
           | .list [.atom "query", e] => do some (.query (← parseExpr e))
+          | .list [.atom "setitem", i, iv, e] => do some (.setitem (← i.toNat?) (← iv.toNat?) (← parseExpr e))
           | _ => none
         match stmts.mapM parseStmt with
         | some sts =>
@@ -173,7 +217,7 @@ def handle : List Sx → Sx
           | .ok x => objSx x
           | .error e => errSx e
         | none => err "tree"
-    | _, _, _, _, _ => err "env"
+    | _, _, _, _, _, _, _ => err "env"
   | _ => err "c03-request"
 
 end Drv.C03
